@@ -39,11 +39,15 @@ class PathEnd(Exception):
 
 
 class Closure:
+    __pyvc_symbolic__ = True     # an interpreter-level callable: never handed to native code
+
     def __init__(self, node, env, globs, name='<lambda>', fnobj=None):
         self.node, self.env, self.globs, self.name, self.fnobj = node, env, globs, name, fnobj
 
 
 class BoundM:
+    __pyvc_symbolic__ = True
+
     def __init__(self, fn, selfv):
         self.fn, self.selfv = fn, selfv
 
@@ -435,6 +439,13 @@ class Engine:
             raise RaiseEx(e)
 
     def call0(self, f, args, kwargs):
+        if self.stubs and not isinstance(f, (SymMeth, Closure, BoundM)):
+            try:
+                h = self.stubs.get(id(f))
+            except TypeError:
+                h = None
+            if h is not None:
+                return h(self, args, kwargs)
         if isinstance(f, SymMeth):
             return self.symmeth(f.name, f.recv, args, kwargs)
         if isinstance(f, Closure):
